@@ -61,6 +61,7 @@ struct Plan {
   bool never_start = false;
   uint8_t poison = 0;
   int fault_node = -1, fault_call = -1;   // modelled fault: callable of node throws
+  int stop_call_node = -1, stop_call_idx = -1;   // the callable of this node requests stop on the root source at this call
   long anon_fault = -1;                   // anonymous fault: k-th throw point (copy/move/connect/alloc)
   std::string text;
 };
@@ -120,6 +121,7 @@ struct Env {
   static void call(int nid) {
     auto& w = sr::W();
     int c = w.calls[nid]++;
+    if (nid == w.stop_call_node && c == w.stop_call_idx && w.request_root_stop) { SR_TR("the callable of node %d requests stop on the root source", nid); w.request_root_stop(); }
     if (nid == w.fault_node && c == w.fault_call) { w.fault_fired = true; w.fault_site = "callable"; throw sr::Injected{0}; }
   }
   sr::Leaf<T> leaf(int id) const { return {id}; }
